@@ -387,6 +387,7 @@ def check_point(case, rec):
         if nodes.size == 0:
             raise Inconclusive("empty selection")
         vals, names, seen = [], [], set()
+        handed = []  # (array object handed to the library, its values at that time): arrays stay the caller's
         for vd in call["vals"]:
             comp = vd["comp"] % dof_n
             if comp in seen:
@@ -394,16 +395,25 @@ def check_point(case, rec):
             seen.add(comp)
             if vd["form"] == "const":
                 v, at_nodes = vd["cst"], np.full(nodes.size, float(vd["cst"]))
+            elif vd["form"] == "array" and handed and vd["seed"] % 2 == 0:
+                v, at_nodes = handed[-1][0], handed[-1][1].copy()  # the same array object for another unknown
+                rec.label("pform:array_shared")
             else:
                 f = poly_fn(poly_coefs(vd["seed"], vd["deg"], True))
                 at_nodes = np.asarray(f(coord[nodes, 0], coord[nodes, 1], coord[nodes, 2]), float)
                 v = f if vd["form"] == "func" else at_nodes.copy()
+                if vd["form"] == "array":
+                    handed.append((v, at_nodes.copy()))
             vals.append(v)
             names.append(unknowns[comp])
             exp[nodes, comp] += at_nodes / nodes.size
             big = max(big, float(np.abs(at_nodes).max()))
             rec.label("pform:" + vd["form"])
         simu.add_neumann(nodes, vals, names)
+        for arr, snap in handed:
+            rec.require(np.array_equal(arr, snap), "caller_array_untouched",
+                        f"{types} {case['sim']}: add_neumann modified the array of values it was given (max change "
+                        f"{float(np.abs(arr - snap).max()):.3e})", sim=case["sim"])
         nmax = max(nmax, nodes.size)
         rec.label("psel:" + how, "psim:" + case["sim"])
     F = neumann(simu, mesh)
